@@ -285,6 +285,11 @@ func (c *RetryClient) SetClient(ctx context.Context, cli *BaseClient) {
 	started := c.chTask != nil
 	if !started {
 		c.chTask = make(chan struct{}, 1)
+		if c.stopped {
+			// Disconnect was called before the first SetClient and could not close the channel:
+			// the task goroutine processes what is queued (the disconnection) and exits.
+			close(c.chTask)
+		}
 	}
 	chTask := c.chTask
 	c.mu.Unlock()
